@@ -481,6 +481,23 @@ theorem C04_dispatch_oj (v : JV) :
       (ty.startsWith "gen." = true → armOf Gen.WriterDispatch.ojAppendJSON ty = none) := by
   cases v <;> simp only [goTypesOf] <;> decide +kernel
 
+/-- the member filter the model applies (`Writer/OjModel.lean`, `dropMember`: a nil member under
+OmitNil; an empty string, object or array under OmitEmpty; nothing else) as the arms every object
+writer of oj has to have -/
+def omitArmsOf (fn : String) : List (String × List String) :=
+  [(fn ++ "/nil", ["if wr.OmitNil", "continue", "end"]),
+   (fn ++ "/string", ["if wr.OmitEmpty && len(tm) == 0", "continue", "end"]),
+   (fn ++ "/map[string]any", ["if wr.OmitEmpty && len(tm) == 0", "continue", "end"]),
+   (fn ++ "/[]any", ["if wr.OmitEmpty && len(tm) == 0", "continue", "end"])]
+
+/-- the four object writers of oj (indented and tight, unsorted and sorted) filter members by the
+SAME type switch in the current source, and it has exactly the arms of the model's filter — no arm
+more (no other kind is ever dropped), none less, none with another condition -/
+theorem C04_omit_dispatch :
+    Gen.WriterDispatch.ojOmitSwitch =
+      omitArmsOf "appendObject" ++ omitArmsOf "appendSortObject" ++ omitArmsOf "tightObject" ++ omitArmsOf "tightSortObject" := by
+  decide +kernel
+
 /-- the statements range over something: an integer leaf has eleven Go types, none missing -/
 example : (goTypesOf (.int 5)).length = 11 ∧ goTypesOf (.flt []) = ["float64", "gen.Float"] := by decide
 
